@@ -64,7 +64,7 @@ theorem prim_stop (a b : State) (hl : C05.Inv a) (p : Prim a b) : Stop a b := by
         · exact h
         · exact absurd h hc
       exact .advance (Or.inl hin) (Or.inl rfl) f2' f3' f4' f5' f6' f7'
-  case hsEnter g1 g2 _ =>
+  case hsEnter g1 g2 _ _ =>
     refine .advance ?_ (Or.inr rfl) rfl rfl rfl rfl rfl rfl
     rcases hl.finTr g1 with h | h | h
     · exact Or.inr (Or.inl h)
